@@ -429,6 +429,119 @@ def tempering_runfor_part(ck, tier):
                          {"minutes": minutes, "hours": hours, "budget_s": budget, "elapsed_on_the_simulated_clock_s": elapsed}, site="ParallelTempering.run_for")
 
 
+def tempering_runfor_trace_part(ck, tier):
+    """ParallelTempering.run_for with SLOW exchange cycles (0.4 s to 7 s each on the master's simulated clock, every look at the clock 0.25 s):
+    the clock reads and step batches of the real call, judged by RunFor.tla like those of MarkovChain.run_for (no step after a read at or
+    past the deadline, return only after one, the chains grew by the steps taken, never more than R reads in a row without a step while
+    the budget is not used up -- 'keeps taking whole steps ... however slow a step is')"""
+    import io, contextlib
+    import inference.mcmc.parallel as par
+    from inference.mcmc import GibbsChain
+    from harness.c03 import GaussPost
+    real = par.time
+    events, runs = [], []
+    scen = [(0.2, 0.4, 3), (0.2, 2.5, 2), (0.25, 7.0, 5), (0.1, 1.9, 1)] + ([(0.5, 3.1, 4), (0.3, 0.9, 2), (0.4, 12.5, 3)] if tier == "thorough" else [])
+    for minutes, cost, si in scen:
+        budget = minutes * 60.0
+        ev = [{"ev": "Begin", "budget": int(round(budget * 1e6)), "uniform": True, "cmax": int(round(cost * 1e6)), "history": 0}]
+        clock = {"t": 5000.0}
+
+        def fake(clock=clock, ev=ev):
+            clock["t"] += 0.25
+            ev.append({"ev": "Clock", "t": int(round((clock["t"] - 5000.0) * 1e6))})
+            return clock["t"]
+        ck.case(("pt-runfor-slow", minutes, cost, si))
+        ident = {"call": "ParallelTempering.run_for(minutes=%g, swap_interval=%d)" % (minutes, si), "simulated_seconds_per_exchange_cycle": cost,
+                 "simulated_seconds_per_clock_read": 0.25}
+        pt, err, added = None, None, -1
+        try:
+            chains = [GibbsChain(posterior=GaussPost(2), start=np.array([0.1 * (i + 1), 0.2]), widths=np.array([0.5, 0.5]), temperature=T,
+                                 display_progress=False) for i, T in enumerate((1.0, 3.0))]
+            with contextlib.redirect_stdout(io.StringIO()):
+                pt = par.ParallelTempering(chains)
+                real_take = pt.take_steps
+
+                def take(nn, real_take=real_take, clock=clock, ev=ev, cost=cost):
+                    real_take(nn)
+                    clock["t"] += cost
+                    if ev[-1]["ev"] == "Steps":
+                        ev[-1]["n"] += nn
+                    else:
+                        ev.append({"ev": "Steps", "n": nn})
+                pt.take_steps = take
+                par.time = fake
+                try:
+                    pt.run_for(minutes=minutes, swap_interval=si)
+                finally:
+                    par.time = real
+                got = pt.return_chains()
+                added = int(got[0].chain_length) - 1
+                if len({int(c.chain_length) for c in got}) != 1:
+                    err = "the chains of one tempering run have different lengths: %r" % [int(c.chain_length) for c in got]
+        except Exception as ex:
+            err = repr(ex)[:200]
+        finally:
+            par.time = real
+            if pt is not None:
+                try:
+                    with contextlib.redirect_stdout(io.StringIO()):
+                        pt.shutdown()
+                except Exception:
+                    pass
+        if err:
+            ck.violation("ParallelTempering.run_for raised / chains of unequal length", {**ident, "error": err}, site="ParallelTempering.run_for")
+            continue
+        ev.append({"ev": "End", "added": added})
+        runs.append((len(events), len(events) + len(ev), ident))
+        events += ev
+    if not runs:
+        return
+    d = scratch("c15ptrf_")
+    path = os.path.join(d, "trace.ndjson")
+    with open(path, "w") as fh:
+        for e in events:
+            fh.write(json.dumps(e) + "\n")
+    rt = run_tlc("RunFor", workers=1, env={"TRACE_FILE": path}, timeout=600)
+    if rt.error and "REJECTED" not in rt.stdout:
+        raise MachineryError("RunFor trace (tempering): " + rt.error)
+    ck.tlc(rt, "runfor_traces_tempering")
+    ck.traces += len(runs)
+    ck.count("runfor_traces_tempering", "events", len(events))
+    if rt.violated or any("REJECTED" in x for x in rt.raw_printed):
+        blamed = False
+        for s0, e0, ident in runs:
+            idle = worst = steps = 0
+            deadline, over, bad = None, False, None
+            for e in events[s0 + 1:e0]:
+                if e["ev"] == "Clock":
+                    if deadline is None:
+                        deadline = e["t"] + events[s0]["budget"]
+                    elif e["t"] >= deadline:
+                        over = True
+                    else:
+                        idle += 1
+                        worst = max(worst, idle)
+                elif e["ev"] == "Steps":
+                    if over:
+                        bad = "NoStepAfterBudget"
+                    idle = 0
+                    steps += e["n"]
+                elif e["ev"] == "End":
+                    if not over:
+                        bad = "ExitOnlyAfterBudget"
+                    elif e["added"] != steps:
+                        bad = "the chains grew by %d, the steps taken are %d" % (e["added"], steps)
+            if worst > 6:
+                bad = "StarvationFree"
+            if bad:
+                blamed = True
+                ck.violation(bad + ": a timed tempering run keeps taking whole steps until its time budget is used up, however slow a step is, then stops",
+                             {**ident, "max_consecutive_idle_clock_reads": worst, "steps_taken": steps}, site="ParallelTempering.run_for")
+        if not blamed:
+            ck.violation("RunFor.tla rejects the clock-read / step trace of a timed tempering run (overrun bound)", {"tlc": str(rt.violated)[:200]},
+                         site="ParallelTempering.run_for")
+
+
 def run(tier):
     ck = Check("C15", tier)
     ck.rule = ("one case per (sampler class, TLC call sequence, display flag), per (budget, cost schedule, chain, display flag) timed run, "
@@ -451,6 +564,7 @@ def run(tier):
     pool_part(ck, tier)
     tempering_part(ck, tier)
     tempering_runfor_part(ck, tier)
+    tempering_runfor_trace_part(ck, tier)
     from harness import repotests
     repotests.run_part(ck, "C15")          # traces of the repository's own MCMC tests, judged by TestRunTrace.tla
     return ck.finish()
